@@ -287,7 +287,7 @@ def scenario_strategy(excluded=()):
     ops = [f() for name, f in OPS.items() if name not in excluded]
     if "musig" not in excluded:
         ops += [op_musig(), op_musig()]        # the invocation kind with the most public parameters gets three shares
-    return st.lists(st.one_of(*ops), min_size=20, max_size=60)
+    return st.lists(st.one_of(*ops), min_size=20, max_size=60, unique_by=line_of)      # duplicates would only hit the result cache
 
 
 # ------------------------------------------------------------------------------------------------ descriptors
